@@ -1,15 +1,462 @@
 package main
 
 import (
+	"encoding/json"
+	"flag"
 	"fmt"
-	"golang.org/x/tools/go/packages"
+	"os"
+	"path/filepath"
+	"sort"
+	"strconv"
+	"strings"
+	"time"
 )
 
+type PropSpec struct {
+	Funcs       []string `json:"funcs"`
+	Lemmas      []string `json:"lemmas"`
+	NotDecided  []string `json:"not_decided"`
+	Explanation string   `json:"explanation"`
+	Bounded     []string `json:"bounded"`
+	MinObls     int      `json:"min_obligations"`
+}
+
+const verifDir = "/verif"
+
 func main() {
-	cfg := &packages.Config{Mode: packages.NeedName | packages.NeedFiles | packages.NeedSyntax | packages.NeedTypes | packages.NeedTypesInfo | packages.NeedImports | packages.NeedDeps, Dir: "/repo", BuildFlags: []string{"-tags=verif"}}
-	pkgs, err := packages.Load(cfg, "./...")
-	fmt.Println(len(pkgs), err)
-	for _, p := range pkgs {
-		fmt.Println(p.PkgPath, len(p.Syntax), p.Errors)
+	if len(os.Args) < 2 {
+		fmt.Fprintln(os.Stderr, "usage: gowp check|func|list ...")
+		os.Exit(2)
 	}
+	switch os.Args[1] {
+	case "check":
+		os.Exit(cmdCheck(os.Args[2:]))
+	case "func":
+		os.Exit(cmdFunc(os.Args[2:]))
+	case "list":
+		os.Exit(cmdList(os.Args[2:]))
+	}
+	fmt.Fprintln(os.Stderr, "unknown command")
+	os.Exit(2)
+}
+
+func cmdList(args []string) int {
+	fs := flag.NewFlagSet("list", flag.ExitOnError)
+	repo := fs.String("repo", "/repo", "repository")
+	fs.Parse(args)
+	e, err := loadEngine(*repo)
+	if err != nil {
+		fmt.Fprintln(os.Stderr, "load:", err)
+		return 2
+	}
+	for _, k := range e.contractKeys() {
+		fc := e.contracts[k]
+		tag := ""
+		if fc.Assume {
+			tag = " [assumed]"
+		}
+		if fc.Inline {
+			tag += " [inline]"
+		}
+		fmt.Printf("%s%s\n", k, tag)
+	}
+	return 0
+}
+
+func cmdFunc(args []string) int {
+	fs := flag.NewFlagSet("func", flag.ExitOnError)
+	repo := fs.String("repo", "/repo", "repository")
+	dump := fs.String("dump", "", "dump SMT of obligations whose name contains this string")
+	sec := fs.Int("t", 10, "solver timeout (s)")
+	only := fs.String("only", "", "only solve obligations whose name contains this string")
+	thorough := fs.Bool("thorough", false, "all solvers")
+	keep := fs.Bool("keep", false, "keep SMT files")
+	fs.Parse(args)
+	e, err := loadEngine(*repo)
+	if err != nil {
+		fmt.Fprintln(os.Stderr, "load:", err)
+		return 2
+	}
+	work, _ := os.MkdirTemp("", "gowp")
+	if *keep {
+		fmt.Println("work dir:", work)
+	} else {
+		defer os.RemoveAll(work)
+	}
+	rc := 0
+	for _, key := range fs.Args() {
+		var obls []*Obligation
+		if lm, ok := e.lemmas[key]; ok {
+			lo, err := e.lemmaObligations(lm)
+			if err != nil {
+				fmt.Println("ENGINE-ERROR", err)
+				rc = 1
+				continue
+			}
+			obls = lo
+		} else {
+			x, err := e.verifyFunc(key)
+			if err != nil {
+				fmt.Println("ENGINE-ERROR", err)
+				rc = 1
+				continue
+			}
+			obls = x.obls
+			for _, n := range x.notes {
+				fmt.Println("note:", n)
+			}
+		}
+		if *only != "" {
+			var f []*Obligation
+			for _, o := range obls {
+				if strings.Contains(o.Name, *only) {
+					f = append(f, o)
+				}
+			}
+			obls = f
+		}
+		res := solveAll(obls, work, *sec, *sec, *thorough, 16)
+		for i, o := range obls {
+			r := res[i]
+			ok := r.Status == "unsat"
+			if o.ExpectSat {
+				ok = r.Status != "unsat"
+			}
+			mark := "ok  "
+			if !ok {
+				mark = "FAIL"
+				rc = 1
+			}
+			fmt.Printf("%s %-70s %-8s %-14s %5dms %s\n", mark, o.Name, r.Status, r.Solver, r.Ms, o.Pos)
+			if !ok && o.Src != "" {
+				fmt.Printf("       clause: %s\n", o.Src)
+			}
+			if *dump != "" && strings.Contains(o.Name, *dump) {
+				fmt.Println(o.Script(true))
+				if r.Status == "sat" {
+					fmt.Println(getModel(o, work, i, *sec))
+				}
+			}
+		}
+	}
+	return rc
+}
+
+type oblReport struct {
+	Name   string `json:"name"`
+	Model  string `json:"model"`
+	Status string `json:"status"`
+	Solver string `json:"solver"`
+	Ms     int64  `json:"ms"`
+	Pos    string `json:"pos,omitempty"`
+	Clause string `json:"clause,omitempty"`
+}
+
+func cmdCheck(args []string) int {
+	fs := flag.NewFlagSet("check", flag.ExitOnError)
+	repo := fs.String("repo", "/repo", "repository")
+	prop := fs.String("prop", "", "property id")
+	tier := fs.String("tier", "quick", "quick|thorough")
+	fs.Parse(args)
+	if t := os.Getenv("VERIF_TIER"); t == "quick" || t == "thorough" {
+		*tier = t
+	}
+	seed := 0
+	if s := os.Getenv("VERIF_SEED"); s != "" {
+		seed, _ = strconv.Atoi(s)
+	}
+	t0 := time.Now()
+	var props map[string]*PropSpec
+	data, err := os.ReadFile(filepath.Join(verifDir, "props.json"))
+	if err != nil {
+		fmt.Fprintln(os.Stderr, err)
+		return 2
+	}
+	if err := json.Unmarshal(data, &props); err != nil {
+		fmt.Fprintln(os.Stderr, "props.json:", err)
+		return 2
+	}
+	ps := props[*prop]
+	if ps == nil {
+		fmt.Fprintln(os.Stderr, "unknown property", *prop)
+		return 2
+	}
+	replayDir := filepath.Join(verifDir, "work", "replay", *prop)
+	os.RemoveAll(replayDir)
+	os.MkdirAll(replayDir, 0o755)
+	work := filepath.Join(verifDir, "work", "smt", *prop)
+	os.RemoveAll(work)
+	os.MkdirAll(work, 0o755)
+	known := loadKnownFindings(filepath.Join(verifDir, "KNOWN_FINDINGS"))
+
+	type failure struct {
+		name, reason, detail string
+		obl                  *Obligation
+		res                  *SolveResult
+		idx                  int
+	}
+	var failures []failure
+	e, err := loadEngine(*repo)
+	if err != nil {
+		failures = append(failures, failure{name: "load", reason: "the repository or its contract files do not load", detail: err.Error()})
+	}
+	var obls []*Obligation
+	var funcsOK []string
+	trusted := map[string]bool{}
+	var notes []string
+	if err == nil {
+		for _, key := range ps.Funcs {
+			x, ferr := e.verifyFunc(key)
+			if ferr != nil {
+				failures = append(failures, failure{name: key + "#generate", reason: "obligations could not be generated (function left the verifiable subset, lost its anchor, or its contract no longer type-checks)", detail: ferr.Error()})
+				continue
+			}
+			funcsOK = append(funcsOK, key)
+			obls = append(obls, x.obls...)
+			for t := range x.trusted {
+				trusted[t] = true
+			}
+			notes = append(notes, x.notes...)
+		}
+		for _, ln := range ps.Lemmas {
+			lm := e.lemmas[ln]
+			if lm == nil {
+				failures = append(failures, failure{name: "lemma " + ln, reason: "lemma missing"})
+				continue
+			}
+			lo, lerr := e.lemmaObligations(lm)
+			if lerr != nil {
+				failures = append(failures, failure{name: "lemma " + ln, reason: "lemma obligations could not be generated", detail: lerr.Error()})
+				continue
+			}
+			obls = append(obls, lo...)
+		}
+	}
+	quickSec, slowSec := 10, 10
+	thorough := *tier == "thorough"
+	if thorough {
+		quickSec, slowSec = 60, 60
+	}
+	res := solveAll(obls, work, quickSec, slowSec, thorough, 16)
+	var reports []oblReport
+	discharged := 0
+	var solverMs int64
+	bySolver := map[string]int{}
+	for i, o := range obls {
+		r := res[i]
+		ok := r.Status == "unsat"
+		if o.ExpectSat {
+			ok = r.Status != "unsat"
+		}
+		solverMs += r.Ms
+		rep := oblReport{Name: o.Name, Model: o.X.model.Name, Status: r.Status, Solver: r.Solver, Ms: r.Ms, Pos: o.Pos, Clause: o.Src}
+		if o.ExpectSat {
+			rep.Status = "satisfiable-precondition(" + r.Status + ")"
+		}
+		reports = append(reports, rep)
+		if ok {
+			discharged++
+			bySolver[r.Solver]++
+			continue
+		}
+		rr := r
+		reason := "obligation not discharged: solver answered " + r.Status
+		if o.ExpectSat {
+			reason = "vacuity: the function's preconditions are contradictory"
+		}
+		failures = append(failures, failure{name: o.Name, reason: reason, obl: o, res: &rr, idx: i})
+	}
+	if len(obls) < ps.MinObls && err == nil {
+		failures = append(failures, failure{name: "obligation-count", reason: fmt.Sprintf("only %d obligations were generated, at least %d expected (vacuity guard)", len(obls), ps.MinObls)})
+	}
+
+	// report
+	violations := 0
+	var lines []string
+	for _, f := range failures {
+		if kf := known.match(*prop, f.name); kf != "" {
+			lines = append(lines, fmt.Sprintf("KNOWN-FINDING: property=%s %s", *prop, kf))
+			continue
+		}
+		violations++
+		path := filepath.Join(replayDir, sanitize(f.name)+".txt")
+		var b strings.Builder
+		fmt.Fprintf(&b, "property: %s\nfailed obligation: %s\nreason: %s\n", *prop, f.name, f.reason)
+		if f.detail != "" {
+			fmt.Fprintf(&b, "detail: %s\n", f.detail)
+		}
+		suffix := " no-failing-input-found"
+		if f.obl != nil {
+			fmt.Fprintf(&b, "source position: %s\ncontract clause: %s\nmodel: %s\nsolvers tried: %s\n", f.obl.Pos, f.obl.Src, f.obl.X.model.Name, strings.Join(f.res.Tried, " "))
+			if f.res.Status == "sat" {
+				model := getModel(f.obl, work, f.idx, 10)
+				fmt.Fprintf(&b, "\n--- counterexample (solver model) ---\n%s\n", summariseModel(model))
+				if rp := tryReplay(e, f.obl, model, replayDir); rp != nil {
+					fmt.Fprintf(&b, "\n--- replay on the real code ---\n%s\n", rp.Log)
+					if rp.Failed {
+						suffix = ""
+						fmt.Fprintf(&b, "replay test: %s\n", rp.TestFile)
+					}
+				}
+			}
+			fmt.Fprintf(&b, "\n--- solver output ---\n%s\n", truncate(f.res.Output, 4000))
+			fmt.Fprintf(&b, "\n--- SMT query: %s ---\n", filepath.Join(work, fmt.Sprintf("o%05d.smt2", f.idx)))
+		}
+		os.WriteFile(path, []byte(b.String()), 0o644)
+		lines = append(lines, fmt.Sprintf("VIOLATION property=%s replay=%s%s", *prop, path, suffix))
+	}
+
+	// evidence
+	var tb []string
+	for t := range trusted {
+		tb = append(tb, t)
+	}
+	sort.Strings(tb)
+	tb = append(tb, "A6: the gowp translator (Go semantics as implemented by the VC generator)", "A7: SMT solvers are trusted for unsat", "A9: termination is not proved (partial correctness)")
+	var samples []any
+	for i, o := range obls {
+		if len(samples) >= 3 {
+			break
+		}
+		if o.Kind == "post" || o.Kind == "loop" {
+			samples = append(samples, map[string]any{"name": o.Name, "clause": o.Src, "goal": truncate(o.Goal.String(), 600), "hypotheses": len(o.Hyps), "status": res[i].Status})
+		}
+	}
+	if len(samples) == 0 {
+		for i, o := range obls {
+			if len(samples) >= 2 {
+				break
+			}
+			samples = append(samples, map[string]any{"name": o.Name, "goal": truncate(o.Goal.String(), 600), "status": res[i].Status})
+		}
+	}
+	if len(samples) == 0 {
+		samples = append(samples, "no obligations generated")
+	}
+	models := map[string]bool{}
+	for _, o := range obls {
+		models[o.X.model.Name] = true
+	}
+	var assumptions []string
+	assumptions = append(assumptions, tb...)
+	if models["real"] || models["xreal"] {
+		assumptions = append(assumptions, "A1/A2: float64 arithmetic on finite values is treated as exact real arithmetic (no rounding, no overflow); NaN/Inf special values are modelled only in model xreal")
+	}
+	assumptions = append(assumptions, "ints are mathematical integers (no wrap-around); unsigned subtraction is checked not to underflow")
+	for _, n := range ps.NotDecided {
+		assumptions = append(assumptions, "NOT DECIDED by this check: "+n)
+	}
+	ev := map[string]any{
+		"property_id": *prop,
+		"tier":        *tier,
+		"seed":        seed,
+		"level":       "proof",
+		"coverage": map[string]any{
+			"obligations":              len(obls),
+			"discharged":               discharged,
+			"checker_cmd":              fmt.Sprintf("/verif/bin/gowp check -prop %s -tier %s", *prop, *tier),
+			"trusted_base":             tb,
+			"samples":                  samples,
+			"functions_under_contract": funcsOK,
+			"lemmas":                   ps.Lemmas,
+			"discharged_by_backend":    bySolver,
+			"solver_ms_total":          solverMs,
+			"per_obligation":           reports,
+			"bounded":                  ps.Bounded,
+			"not_decided_clauses":      ps.NotDecided,
+			"explanation":              ps.Explanation,
+			"engine_notes":             notes,
+		},
+		"assumptions": assumptions,
+		"wall_s":      time.Since(t0).Seconds(),
+		"violations":  violations,
+	}
+	os.MkdirAll(filepath.Join(verifDir, "evidence"), 0o755)
+	out, _ := json.MarshalIndent(ev, "", " ")
+	os.WriteFile(filepath.Join(verifDir, "evidence", *prop+".json"), out, 0o644)
+
+	fmt.Printf("gowp: property %s tier %s: %d functions, %d obligations, %d discharged, %d violations, %.1fs\n",
+		*prop, *tier, len(funcsOK), len(obls), discharged, violations, time.Since(t0).Seconds())
+	for _, l := range lines {
+		fmt.Println(l)
+	}
+	if violations > 0 {
+		return 1
+	}
+	return 0
+}
+
+func truncate(s string, n int) string {
+	if len(s) <= n {
+		return s
+	}
+	return s[:n] + " …[truncated]"
+}
+
+func summariseModel(m string) string {
+	// keep input constants (in_*, glob_*) first
+	var keep []string
+	lines := strings.Split(m, "\n")
+	for i := 0; i < len(lines); i++ {
+		l := lines[i]
+		if strings.Contains(l, "define-fun in_") || strings.Contains(l, "define-fun glob_") {
+			entry := strings.TrimSpace(l)
+			for j := i + 1; j < len(lines) && j < i+6; j++ {
+				if strings.Contains(lines[j], "define-fun") {
+					break
+				}
+				entry += " " + strings.TrimSpace(lines[j])
+			}
+			keep = append(keep, entry)
+		}
+	}
+	return strings.Join(keep, "\n") + "\n\n" + truncate(m, 6000)
+}
+
+// ---------------------------------------------------------------------
+
+type knownFindings struct {
+	entries []knownEntry
+}
+
+type knownEntry struct {
+	prop, obligation, text string
+}
+
+func loadKnownFindings(path string) *knownFindings {
+	kf := &knownFindings{}
+	data, err := os.ReadFile(path)
+	if err != nil {
+		return kf
+	}
+	for _, l := range strings.Split(string(data), "\n") {
+		l = strings.TrimSpace(l)
+		if !strings.HasPrefix(l, "finding:") {
+			continue
+		}
+		rest := strings.TrimSpace(l[len("finding:"):])
+		var e knownEntry
+		for _, f := range strings.Fields(rest) {
+			if strings.HasPrefix(f, "property=") {
+				e.prop = f[len("property="):]
+			}
+			if strings.HasPrefix(f, "obligation=") {
+				e.obligation = f[len("obligation="):]
+			}
+		}
+		e.text = rest
+		if e.prop != "" && e.obligation != "" {
+			kf.entries = append(kf.entries, e)
+		}
+	}
+	return kf
+}
+
+func (k *knownFindings) match(prop, obligation string) string {
+	for _, e := range k.entries {
+		if e.prop == prop && e.obligation == obligation {
+			return e.text
+		}
+	}
+	return ""
 }
